@@ -4,30 +4,46 @@ from __future__ import annotations
 import itertools
 import json
 import random
+from concurrent.futures import ThreadPoolExecutor
 from typing import Any
 
 from harness import c02_util as U
 from harness.common import VERIF, Ck, coq_list, coq_str
-from translate import c02_tables
+from translate import c02_tables, c03_basetok, c03_kvparse
 
 MANIFEST = dict(
     technique='Rocq proof (generic chunked-reader = flat-reader simulation for every reader program; totality, progress, '
-              'EOF-for-ever and a linear read bound for the tokenizer model by induction on fuel) + exhaustive small-scope '
-              'differential correspondence (in-kernel enumeration, 63-bit checksums) + chunking oracle on the implementation',
+              'EOF-for-ever and a linear read bound for the tokenizer model by induction on fuel; push-back-stack refinement and '
+              'bisimulation for the BaseTokenizer layer; exception-level model of Keyvalues.parse configured by a census of the '
+              'parse path) + exhaustive small-scope differential correspondences (in-kernel enumeration, 63-bit checksums) + '
+              'chunking / delivery / foreign-exception oracles on the implementation',
     text='Theorems in Props/C03.v: no reader program can distinguish a chunked source (the _cur_chunk/_char_index/iterator state '
          'of the real class, _next_char and the one-character push-back modelled literally) from the flat text, so token '
          'traces (kind, value, line_num, _last_was_cr, error site and line) are identical for every chunking, every option '
          'vector and any number of calls; with fuel above the text length no call runs out of fuel, a call returns EOF only '
          'with the input exhausted and then for ever, each call does at most 2*remaining+1 reads and n calls at most '
          '2*|text|+n; the only failure values are the 14 error sites, all raised through self.error (TokenSyntaxError). '
-         'The model is compared with the real Tokenizer on every string over a 23-symbol syntax alphabet up to length 3 under '
-         'all 128 option vectors (token, value, line_num, _last_was_cr, error site/argument/line), on random longer texts, and '
-         'the reader state (_char_index, len(_cur_chunk)) after every call on random chunkings; the implementation alone is '
-         'checked for chunked == unchunked on all cut sets, foreign exceptions, EOF for ever and the read bound.',
-    note='Trusted: Coq kernel + vm_compute (incl. primitive Uint63 for checksums), translate/c02_tables.py, the hand model '
-         'Text/Tokenizer.v (tied by the exhaustive differential run), CPython str/casefold. Keyvalues.parse (KeyValError '
-         'clause) is searched on the implementation only, not modelled (C01 owns the parser model). The push-back stack of '
-         'BaseTokenizer, file names and message texts are outside the model. Cython twin not covered.',
+         'BaseTokenizer layer (generic over the source, LIFO condition read from the source): every sequence of __call__/peek/'
+         'push_back equals the same sequence on the logical stream "pushed-back tokens, last first, then the _get_token stream"; '
+         'calls deliver the underlying stream unchanged; re-delivery does not touch line_num; through call/peek/push_back/expect the '
+         'flat text and every chunking give the same results and final state; IterTokenizer delivers its items then EOF for ever. '
+         'Keyvalues.parse (exception level, all four parse options, any flag mapping): if every indexing site is guarded as the '
+         'census of the source says (five named obligations + "no unguarded indexing/conversion/unknown call on the parse path" + '
+         '"every error message formats with the arguments passed"), then for every token stream and every text nothing but '
+         'KeyValError leaves the parser; each foreign exit needs its own guard to be missing. '
+         'Correspondences on every run: tokenizer model vs real Tokenizer on every string over a 23-symbol alphabet (quick: length 2 x '
+         'all 128 option vectors + length 3 x 32 vectors; thorough: length 3 x 128 + length 4 x 16), random texts, reader state after '
+         'every call; BaseTokenizer model vs the real class on every sequence of up to 4 (5) of 12 public operations on 5 sources '
+         '(result, _pushback list, line_num after each); parser model vs Keyvalues.parse outcome class on every token list over 9 '
+         'tokens up to length 4 (5) x 16 option vectors through IterTokenizer, every text over 13 symbols up to length 3 (4), '
+         'structured random token streams and texts. The implementation alone is checked for chunked == unchunked on all cut sets, '
+         'foreign exceptions, EOF for ever, the read bound, and delivery = plain stream under peeks and push-backs.',
+    note='Trusted: Coq kernel + vm_compute (incl. primitive Uint63 for checksums), the translators (c02_tables, c03_kvparse, '
+         'c03_basetok), the hand models Text/Tokenizer.v, Text/BaseTok.v (helper loops) and Text/KvErrModel.v (tied by the exhaustive '
+         'differential runs), CPython str/casefold. The parser model abstracts the tree to "child list empty or not" (exact for the '
+         'outcome class; the tree itself is C01\'s subject) and consumes the logical token list (push_back = not consumed). '
+         'FLAGS_DEFAULT entries that depend on the platform are read from the running interpreter. File names and message texts '
+         'are outside the models (errors are identified by site / message prefix). Cython twin not covered.',
 )
 
 SYN_ALPHA = ['"', '\\', '/', '*', '{', '}', '[', ']', '(', ')', '#', ':', '+', '=', ',', '\r', '\n', ' ', 'a', 'n', '\ufeff', "'", ';']
@@ -98,7 +114,7 @@ def _impl_shard(job) -> tuple[int, int, dict, int, list]:
                 bad.append(('foreign-exception', s, bits, None))
             elif k == 'eof' and (ref[-5:] != [1, 0, ref[-3], ref[-2], 0] or ref[-10:-5] != ref[-5:]):
                 bad.append(('EOF-not-for-ever', s, bits, None))
-            if len(bad) < 50:
+            if len(bad) < 50 and (len(s) <= full_cuts or bits in _REP_SET):
                 for cs in alts:
                     ocnt += 1
                     if U.impl_results(iter(cs), bits, nc) != ref:
@@ -127,13 +143,20 @@ def _outcome(res: list[int]) -> str:
 
 
 REPRESENTATIVE_BITS = [0, 127] + [1 << i for i in range(7)] + [127 ^ (1 << i) for i in range(7)]   # every option alone on / alone off
+_REP_SET = frozenset(REPRESENTATIVE_BITS)
+QUICK_BITS = REPRESENTATIVE_BITS + [3, 5, 6, 9, 10, 12, 17, 20, 24, 33, 40, 48, 65, 68, 80, 96]    # + 16 pairs of options
 
 
 def corr_exhaustive(ck: Ck, escalate: bool) -> None:
     alpha = [ord(c) for c in SYN_ALPHA]
-    # phase A (both tiers): length <= 3 x all 128 option vectors.  phase B (thorough): length <= 4 x 16 representative vectors.
-    full_cuts = 3 if (ck.thorough or escalate) else 2
-    phases = [(3, [ALL_BITS[i:i + 8] for i in range(0, 128, 8)], full_cuts)]
+    # quick: length <= 2 x all 128 option vectors and length <= 3 x 32 option vectors (every option alone on / alone off and 16
+    # pairs); thorough or escalated: length <= 3 x all 128 (every cut set); thorough also length <= 4 x 16 representative vectors.
+    big = ck.thorough or escalate
+    full_cuts = 3 if big else 2
+    if big:
+        phases = [(3, [ALL_BITS[i:i + 8] for i in range(0, 128, 8)], full_cuts)]
+    else:
+        phases = [(2, [ALL_BITS[i:i + 16] for i in range(0, 128, 16)], 2), (3, [QUICK_BITS[i:i + 2] for i in range(0, 32, 2)], 2)]
     if ck.thorough:
         phases.append((4, [[b] for b in REPRESENTATIVE_BITS], 2))
     bad = []
@@ -141,9 +164,11 @@ def corr_exhaustive(ck: Ck, escalate: bool) -> None:
     oracle_parts = []
     for n, groups, fc in phases:
         jobs = [[f'tok_shard_hash {U.coq_chars(g)} [] {U.coq_chars(alpha)} {n}'] for g in groups]
-        totals = U.pool_map(_impl_shard, [(g, n, fc) for g in groups], workers=14)
+        with ThreadPoolExecutor(1) as ex:         # the model side (coqc processes) runs while the implementation side is computed
+            fut = ex.submit(U.coq_eval_many, ck, jobs, f'c03exh{n}', timeout=840, workers=14)
+            totals = U.pool_map(_impl_shard, [(g, n, fc) for g in groups], workers=14)
+            res = fut.result()
         oracle_parts += [(t[3], t[4]) for t in totals]
-        res = U.coq_eval_many(ck, jobs, f'c03exh{n}', timeout=840, workers=14)
         for g, r, (tot, cnt, hist, _oc, _ob) in zip(groups, res, totals):
             ck.count('corr_exhaustive_cases', cnt)
             ncases += cnt
@@ -152,12 +177,14 @@ def corr_exhaustive(ck: Ck, escalate: bool) -> None:
             if r is None or U.parse_int63(r[0]) != tot:
                 bad.append(g)
     ck.extra['_oracle_from_corr'] = oracle_parts
-    ck.extra['_oracle_scope'] = (3, full_cuts)
+    ck.extra['_oracle_scope'] = (3, full_cuts) if big else (3, 2, 'quick')
     detail = ''
     if bad:
         detail = _locate(ck, bad[0], alpha)
         ck.tie_broken.append('correspondence Tokenizer vs Text/Tokenizer.v (exhaustive small scope)')
-    scope = f'all strings over the {len(SYN_ALPHA)}-symbol syntax alphabet up to length 3 x all 128 option vectors' + \
+    scope = (f'all strings over the {len(SYN_ALPHA)}-symbol syntax alphabet up to length 3 x all 128 option vectors' if big else
+             f'all strings over the {len(SYN_ALPHA)}-symbol syntax alphabet up to length 2 x all 128 option vectors and up to length 3 x 32 '
+             f'option vectors (each option alone on / alone off, 16 pairs)') + \
             (' and up to length 4 x 16 representative option vectors' if ck.thorough else '')
     ck.obligation('correspondence:tokenizer_exhaustive', not bad,
                   f'real Tokenizer vs model: {scope} ({ncases} cases; token kind, value, line_num, _last_was_cr, error '
@@ -295,6 +322,517 @@ def _impl_chk_trace(bits: int, whole: bool, cs: list[str]) -> list[int]:
         out += [1, t.value, tk.line_num, int(tk._last_was_cr), len(v), *map(ord, v), tk._char_index + 1, len(tk._cur_chunk)]
     return out
 
+
+
+# ------------------------------------------------------------------------------------------------ Keyvalues.parse: error typing
+KV_IMPORTS = U.IMPORTS + ['SV.Text.KvErrModel', 'SV.Text.KvErrGen']
+# token alphabet for Keyvalues.parse(IterTokenizer(...)): (Token value, string)
+KV_TOK_ALPHA = [(1, 'a'), (1, 'b\n'), (11, 'x'), (11, '!x'), (11, ''), (2, '\n'), (6, '{'), (7, '}'), (15, '=')]
+KV_TOK_NAMES = ['STR', 'STRNL', 'FLAGOFF', 'FLAGON', 'FLAGEMPTY', 'NL', 'OPEN', 'CLOSE', 'EQUALS']
+KV_FLAGSETS = [{}, {'x': True, 'win32': False}]
+KV_TEXT_ALPHA = ['"', '\\', '/', '{', '}', '[', ']', '\r', '\n', ' ', 'a', '#', '!']
+KV_TEXT_MODES = [(2, True, 0), (7, True, 0), (0, False, 0), (10, True, 1)]     # (option bits, allow_escapes, flag set)
+_KV_PREFIX = [(109, 'Block opening ("{") required, but hit EOF!'), (101, 'Keyvalues cannot have sub-section'),
+              (102, 'Block opening ("{") required!'), (102, 'Block opening ("{{") required!'), (103, 'Illegal newline found in key'), (104, 'Illegal newline found in value'),
+              (105, 'Cannot have multiple names'), (106, 'Too many closing brackets.'), (108, 'Expected '),
+              (110, 'End of text reached'), (107, 'Unexpected '), (107, 'File ended unexpectedly!')]
+_FOREIGN = {'IndexError': 301, 'KeyError': 302, 'ValueError': 303, 'TypeError': 304, 'AssertionError': 305, 'AttributeError': 306}
+KV_CODE_NAMES = {0: 'ok', 101: 'subsection-after-value', 102: 'block-required', 103: 'newline-in-key', 104: 'newline-in-value',
+                 105: 'multiple-names', 106: 'too-many-close', 107: 'unexpected-token', 108: 'expected-newline',
+                 109: 'eof-block-required', 110: 'eof-open-blocks', 301: 'FOREIGN IndexError'}
+
+
+def kv_kw(bits: int) -> dict:
+    return dict(newline_keys=bool(bits & 1), newline_values=bool(bits & 2), single_line=bool(bits & 4), single_block=bool(bits & 8))
+
+
+def kv_code(arg: Any, bits: int, ae: bool, flags: dict) -> tuple[int, str]:
+    """Outcome class of Keyvalues.parse as KvErrGen.outcome_code encodes it (+ a description)."""
+    from srctools.keyvalues import KeyValError, Keyvalues
+    from srctools.tokenizer import TokenSyntaxError
+    try:
+        Keyvalues.parse(arg, flags=flags, allow_escapes=ae, **kv_kw(bits))
+        return 0, 'ok'
+    except KeyValError as e:
+        i, _ = U.err_code(e.mess)
+        if i != 99:
+            return 150 + i, e.mess
+        for c, pre in _KV_PREFIX:
+            if e.mess.startswith(pre):
+                return c, e.mess
+        return 198, e.mess
+    except TokenSyntaxError as e:
+        return 400, f'TokenSyntaxError that is not a KeyValError: {e.mess}'
+    except BaseException as e:  # noqa: BLE001 - the property says nothing else may escape
+        return _FOREIGN.get(type(e).__name__, 399), f'{type(e).__name__}: {e}'
+
+
+def dfs_upto(alpha: list, n: int):
+    """All sequences over alpha up to length n in the order of TokEnum.strings_upto (prefix order)."""
+    yield ()
+    if n > 0:
+        for c in alpha:
+            for w in dfs_upto(alpha, n - 1):
+                yield (c,) + w
+
+
+def kv_name(c: int) -> str:
+    return KV_CODE_NAMES.get(c, f'lexer:{U.ERR_NAMES.get(c - 150, c)}' if 150 <= c < 300 else str(c))
+
+
+def kv_tokens_arg(ixs):
+    from srctools.tokenizer import IterTokenizer, Token
+    return IterTokenizer([(Token(KV_TOK_ALPHA[i][0]), KV_TOK_ALPHA[i][1]) for i in ixs])
+
+
+def _kv_tok_shard(job) -> list[int]:
+    bits, fs, n = job
+    return [kv_code(kv_tokens_arg(ix), bits, True, KV_FLAGSETS[fs])[0] for ix in dfs_upto(list(range(len(KV_TOK_ALPHA))), n)]
+
+
+def _kv_text_shard(job) -> list[int]:
+    bits, ae, fs, n = job
+    return [kv_code(''.join(t), bits, ae, KV_FLAGSETS[fs])[0] for t in dfs_upto(KV_TEXT_ALPHA, n)]
+
+
+def coq_flags(fs: dict) -> str:
+    return coq_list(f'({coq_str(k)}, {"true" if v else "false"})' for k, v in fs.items())
+
+
+def gen_kv_text(rng: random.Random) -> str:
+    """Mostly well-formed KeyValues text with [flags], nested blocks, and a few stray tokens."""
+    nl = rng.choice(['\n', '\n', '\r\n', '\r'])
+    flagsrc = ['[x]', '[!x]', '[]', '[win32]', '[!win32]', '[$X]', '[!]', '[X360]']
+    out: list[str] = []
+
+    def name() -> str:
+        return rng.choice(['"a"', '"b"', 'c', '"a"', '"k\\n"', '"multi' + nl + 'line"', '""'])
+
+    def items(depth: int) -> None:
+        for _ in range(rng.choice([0, 1, 1, 2, 3])):
+            r = rng.random()
+            if r < 0.4:
+                out.append(name() + ' ' + name() + (' ' + rng.choice(flagsrc) if rng.random() < 0.5 else '') + nl)
+            elif r < 0.8 and depth < 3:
+                out.append(name() + (' ' + rng.choice(flagsrc) if rng.random() < 0.6 else '') + rng.choice([nl, nl, ' ', '']))
+                out.append('{' + rng.choice([nl, '', ' ']))
+                items(depth + 1)
+                out.append('}' + rng.choice([nl, nl, '', ' ']))
+            elif r < 0.9:
+                out.append(rng.choice(['}', '{', '[x]' + nl, '"a" "b" "c"' + nl, '"a"', '// c' + nl, '"a" [x] "b"' + nl, '=', '"a" "b" [x] [x]' + nl, '"unterminated']))
+            else:
+                out.append(nl)
+    items(0)
+    if rng.random() < 0.2:
+        out = out[:max(1, len(out) // 2)]
+    return ''.join(out)
+
+
+def gen_kv_tokens(rng: random.Random) -> list[int]:
+    """Structured token-index sequences (lines `STR STR [FLAG] NL`, blocks `STR [FLAG] NL OPEN ... CLOSE`) with noise."""
+    S, SNL, FOFF, FON, FEMPTY, NL, OPEN, CLOSE, EQ = range(9)
+    out: list[int] = []
+
+    def flag() -> list[int]:
+        return [rng.choice([FOFF, FON, FON, FOFF, FEMPTY])] if rng.random() < 0.6 else []
+
+    def items(depth: int) -> None:
+        for _ in range(rng.choice([0, 1, 1, 2, 3])):
+            r = rng.random()
+            if r < 0.4:
+                out.extend([S, rng.choice([S, S, SNL]), *flag(), NL])
+            elif r < 0.85 and depth < 3:
+                out.extend([S, *flag(), NL, OPEN])
+                if rng.random() < 0.5:
+                    out.append(NL)
+                items(depth + 1)
+                out.append(CLOSE)
+                if rng.random() < 0.7:
+                    out.append(NL)
+            else:
+                out.append(rng.randrange(9))
+    items(0)
+    return out
+
+
+def _shrink_list(xs: list, pred) -> list:
+    cur = list(xs)
+    changed = True
+    while changed:
+        changed = False
+        for i in range(len(cur)):
+            cand = cur[:i] + cur[i + 1:]
+            if pred(cand):
+                cur, changed = cand, True
+                break
+    return cur
+
+
+def report_kv_tokens(ck: Ck, ixs: list[int], bits: int, fs: int) -> None:
+    c0, _ = kv_code(kv_tokens_arg(ixs), bits, True, KV_FLAGSETS[fs])
+    if capped(f'kvtok-foreign:{c0}'):
+        return
+    small = _shrink_list(ixs, lambda t: kv_code(kv_tokens_arg(t), bits, True, KV_FLAGSETS[fs])[0] == c0)
+    for b in (1, 2, 4, 8):         # drop options that are not needed
+        if bits & b and kv_code(kv_tokens_arg(small), bits & ~b, True, KV_FLAGSETS[fs])[0] == c0:
+            bits &= ~b
+    c, what = kv_code(kv_tokens_arg(small), bits, True, KV_FLAGSETS[fs])
+    ck.violation('kvparse-foreign-exception:' + what.split(':')[0] + ':tokens:' + '+'.join(KV_TOK_NAMES[i] for i in small[:12]),
+                 f'Keyvalues.parse(IterTokenizer({[(KV_TOK_NAMES[i], KV_TOK_ALPHA[i][1]) for i in small]}), flags={KV_FLAGSETS[fs]}, **{kv_kw(bits)}) '
+                 f'raised {what} (only KeyValError may escape)',
+                 {'kind': 'kvparse-tokens', 'tokens': small, 'bits': bits, 'flagset': fs})
+
+
+def report_kv_text(ck: Ck, text: str, bits: int, ae: bool, fs: int) -> None:
+    c0, _ = kv_code(text, bits, ae, KV_FLAGSETS[fs])
+    if capped(f'kvtext-foreign:{c0}'):
+        return
+    small = shrink(text, lambda t: kv_code(t, bits, ae, KV_FLAGSETS[fs])[0] == c0)
+    c, what = kv_code(small, bits, ae, KV_FLAGSETS[fs])
+    kw = dict(kv_kw(bits), allow_escapes=ae)
+    ck.violation('kvparse-foreign-exception:' + what.split(':')[0] + ':' + '+'.join(cname(ch) for ch in small[:8]),
+                 f'Keyvalues.parse({small!r}, flags={KV_FLAGSETS[fs]}, **{kw}) raised {what} (only KeyValError may escape)',
+                 {'kind': 'kvparse', 'text': [ord(ch) for ch in small], 'kw': kw, 'flags': KV_FLAGSETS[fs]})
+
+
+def corr_kvparse(ck: Ck, escalate: bool) -> None:
+    """Exception-level model of Keyvalues.parse (Text/KvErrModel.v, configured by the site census) vs the real parser:
+    outcome class (ok / which KeyValError / which tokenizer error / foreign exception) on token streams fed through
+    IterTokenizer and on texts.  A foreign exception of the implementation is reported as a concrete violation."""
+    big = ck.thorough or escalate or bool(ck.tie_broken)
+    rng = ck.rng
+    # ---- (1) exhaustive token level
+    n_all, n_deep = (5, 6) if big else (4, 5)
+    deep_bits = [2, 10, 6, 3] if big else [2, 10]
+    tjobs = [(b, 0, n_all) for b in range(16)] + [(b, 0, n_deep) for b in deep_bits] + [(2, 1, n_all), (10, 1, n_all)]
+    alpha = coq_list(f'({v}, {coq_str(sv)})' for v, sv in KV_TOK_ALPHA)
+    cjobs = [[f'hfin (hash_list (kv_tokens_shard [{b}] {coq_flags(KV_FLAGSETS[fs])} {alpha} {n}))'] for b, fs, n in tjobs]
+    # ---- (2) exhaustive text level
+    n_txt = 4 if big else 3
+    xjobs = [(b, ae, fs, n_txt) for b, ae, fs in KV_TEXT_MODES]
+    talpha = U.coq_chars(ord(c) for c in KV_TEXT_ALPHA)
+    cjobs += [[f'hfin (hash_list (kv_text_shard {b} {"true" if ae else "false"} {coq_flags(KV_FLAGSETS[fs])} {talpha} {n}))'] for b, ae, fs, n in xjobs]
+    # ---- (3) structured random token streams and texts, as literals
+    m = 6000 if big else 1500
+    rt = []
+    for _ in range(m):
+        ixs = gen_kv_tokens(rng)
+        b, fs = rng.choice([2, 2, 10, 6, rng.randrange(16)]), rng.choice([0, 0, 1])
+        rt.append((b, fs, ixs, kv_code(kv_tokens_arg(ixs), b, True, KV_FLAGSETS[fs])[0]))
+        ck.hist('kvparse_random_tokens_len', min(len(ixs), 30) // 5 * 5)
+    rx = []
+    for i in range(m):
+        t = gen_kv_text(rng) if i % 4 else gen_text(rng)
+        b, ae, fs = rng.choice(KV_TEXT_MODES + [(rng.randrange(16), rng.random() < 0.8, rng.choice([0, 1]))])
+        rx.append((b, ae, fs, t, kv_code(t, b, ae, KV_FLAGSETS[fs])[0]))
+        ck.hist('kvparse_random_text_len', min(len(t), 100) // 20 * 20)
+    lit_jobs = []
+    for lo in range(0, len(rt), 500):
+        lit = coq_list(f'kv_tokens_code {b} {coq_flags(KV_FLAGSETS[fs])} {coq_list(f"({KV_TOK_ALPHA[i][0]}, {coq_str(KV_TOK_ALPHA[i][1])})" for i in ixs)}'
+                       for b, fs, ixs, _ in rt[lo:lo + 500])
+        lit_jobs.append([lit])
+    for lo in range(0, len(rx), 500):
+        lit = coq_list(f'kv_text_code {b} {"true" if ae else "false"} {coq_flags(KV_FLAGSETS[fs])} {coq_str(t)}' for b, ae, fs, t, _ in rx[lo:lo + 500])
+        lit_jobs.append([lit])
+    # in-kernel search for a foreign exit of the model
+    wit_job = [f'kv_foreign_witnesses [2;10;6;15] {coq_flags(KV_FLAGSETS[0])} {alpha} 4']
+    with ThreadPoolExecutor(1) as ex:
+        fut = ex.submit(U.coq_eval_many, ck, cjobs + lit_jobs + [wit_job], 'c03kv', imports=KV_IMPORTS, timeout=600, workers=14)
+        impl_tok = U.pool_map(_kv_tok_shard, tjobs, workers=14)
+        impl_txt = U.pool_map(_kv_text_shard, xjobs, workers=8)
+        res = fut.result()
+    bad: list[str] = []
+    ok_eval = all(r is not None for r in res)
+    ncases = 0
+
+    def ints(v: str) -> list[int]:
+        return [int(x) for x in _split_ints(v)] if v.strip() not in ('[]', 'nil') else []
+    if ok_eval:
+        for job, r, imp in zip(tjobs, res[:len(tjobs)], impl_tok):
+            ncases += len(imp)
+            for c in imp:
+                ck.hist('kvparse_token_outcome', kv_name(c))
+            if U.parse_int63(r[0]) != U.hash_list(imp):
+                # locate: literal model results at a smaller length
+                n2 = min(job[2], 4)
+                v = ck.coq_eval(KV_IMPORTS, [f'kv_tokens_shard [{job[0]}] {coq_flags(KV_FLAGSETS[job[1]])} {alpha} {n2}'], name='kvlocate', preamble=U.PRE)
+                cases = list(dfs_upto(list(range(len(KV_TOK_ALPHA))), n2))
+                mod = ints(v[0]) if v else []
+                imp2 = [kv_code(kv_tokens_arg(ix), job[0], True, KV_FLAGSETS[job[1]])[0] for ix in cases]
+                j = next((i for i, (a, b) in enumerate(zip(mod, imp2)) if a != b), None)
+                bad.append(f'token level bits={job[0]} flagset={job[1]}: ' + (f'tokens {[KV_TOK_NAMES[i] for i in cases[j]]} model={kv_name(mod[j])} impl={kv_name(imp2[j])}'
+                                                                         if j is not None else f'checksums differ at length {job[2]} only'))
+            for j, c in enumerate(imp):
+                if c >= 300:
+                    cases = list(dfs_upto(list(range(len(KV_TOK_ALPHA))), job[2]))
+                    report_kv_tokens(ck, list(cases[j]), job[0], job[1])
+                    break
+        ck.count('corr_kvparse_tokens_exhaustive', ncases)
+        for job, r, imp in zip(xjobs, res[len(tjobs):len(tjobs) + len(xjobs)], impl_txt):
+            ck.count('corr_kvparse_text_exhaustive', len(imp))
+            for c in imp:
+                ck.hist('kvparse_text_outcome', kv_name(c))
+            texts = None
+            if U.parse_int63(r[0]) != U.hash_list(imp):
+                n2 = min(job[3], 3)
+                v = ck.coq_eval(KV_IMPORTS, [f'kv_text_shard {job[0]} {"true" if job[1] else "false"} {coq_flags(KV_FLAGSETS[job[2]])} {talpha} {n2}'],
+                                name='kvlocate', preamble=U.PRE)
+                texts2 = [''.join(t) for t in dfs_upto(KV_TEXT_ALPHA, n2)]
+                mod = ints(v[0]) if v else []
+                imp2 = [kv_code(t, job[0], job[1], KV_FLAGSETS[job[2]])[0] for t in texts2]
+                j = next((i for i, (a, b) in enumerate(zip(mod, imp2)) if a != b), None)
+                bad.append(f'text level bits={job[0]} allow_escapes={job[1]} flagset={job[2]}: ' + (f'text {texts2[j]!r} model={kv_name(mod[j])} impl={kv_name(imp2[j])}'
+                                                                                             if j is not None else f'checksums differ at length {job[3]} only'))
+            for j, c in enumerate(imp):
+                if c >= 300:
+                    texts = texts or [''.join(t) for t in dfs_upto(KV_TEXT_ALPHA, job[3])]
+                    report_kv_text(ck, texts[j], job[0], job[1], job[2])
+                    break
+        lits = res[len(tjobs) + len(xjobs):-1]
+        mod_rt = [x for r in lits[:(len(rt) + 499) // 500] for x in ints(r[0])]
+        mod_rx = [x for r in lits[(len(rt) + 499) // 500:] for x in ints(r[0])]
+        ck.count('corr_kvparse_random_tokens', len(rt))
+        ck.count('corr_kvparse_random_texts', len(rx))
+        for (b, fs, ixs, c), mc in zip(rt, mod_rt):
+            if c != mc:
+                bad.append(f'random tokens bits={b} flagset={fs} {[KV_TOK_NAMES[i] for i in ixs]}: model={kv_name(mc)} impl={kv_name(c)}')
+                break
+        for (b, ae, fs, t, c), mc in zip(rx, mod_rx):
+            if c != mc:
+                bad.append(f'random text bits={b} allow_escapes={ae} flagset={fs} {t!r}: model={kv_name(mc)} impl={kv_name(c)}')
+                break
+        if len(mod_rt) != len(rt) or len(mod_rx) != len(rx):
+            bad.append('literal batches: length mismatch')
+    for b, fs, ixs, c in rt:
+        if c >= 300:
+            report_kv_tokens(ck, ixs, b, fs)
+        if len(ixs) >= 3:
+            ck.seen(('kvt', b, fs, tuple(ixs)))
+    for b, ae, fs, t, c in rx:
+        if c >= 300:
+            report_kv_text(ck, t, b, ae, fs)
+        if len(t) >= 3:
+            ck.seen(('kvx', b, ae, fs, t))
+    ok = ok_eval and not bad
+    ck.obligation('correspondence:kvparse_outcome', ok,
+                  f'exception-level model of Keyvalues.parse vs the implementation, outcome class (ok / which KeyValError / which tokenizer '
+                  f'error / foreign): every token list over {len(KV_TOK_ALPHA)} tokens up to length {n_all} x 16 option vectors (length {n_deep} x '
+                  f'{len(deep_bits)} vectors) through IterTokenizer ({ncases} cases), every text over {len(KV_TEXT_ALPHA)} symbols up to length {n_txt} x '
+                  f'{len(KV_TEXT_MODES)} modes, {len(rt)} structured random token streams, {len(rx)} random texts: '
+                  + ('agree' if ok else ('model evaluation failed' if not ok_eval else '; '.join(bad[:3]))))
+    if not ok:
+        ck.tie_broken.append('correspondence Keyvalues.parse vs Text/KvErrModel.v')
+        ck.extra['kvparse_disagreements'] = bad[:10]
+    # the model's own witnesses
+    if ok_eval:
+        from harness.common import parse_coq_nested
+        wit = parse_coq_nested(res[-1][0]) if res[-1][0].strip() not in ('[]', 'nil') else []
+        ck.obligation('instance:kvparse_model_has_no_foreign_exit_small_scope', not wit,
+                      'in-kernel enumeration of the parser model (as configured from the source) on every token list up to length 4 x 4 option '
+                      'vectors: ' + ('no foreign exit' if not wit else f'{len(wit)} token lists leave with a foreign exception; first: bits={wit[0][0]} '
+                                     f'tokens={[KV_TOK_NAMES[i] for i in wit[0][1]]}'))
+        for bits, ixs in wit[:3]:
+            if kv_code(kv_tokens_arg(list(ixs)), bits, True, {})[0] >= 300:
+                report_kv_tokens(ck, list(ixs), bits, 0)
+    ck.sample({'kvparse_case': {'tokens': [KV_TOK_NAMES[i] for i in rt[0][2]], 'bits': rt[0][0], 'outcome': kv_name(rt[0][3])}})
+
+
+
+# ------------------------------------------------------------------------------------------------ BaseTokenizer layer
+BT_IMPORTS = U.IMPORTS + ['SV.Text.BaseTok', 'SV.Text.BaseTokEnum']
+# public operations: (name, Coq constructor)
+BT_OPS = [('call', 'XCall'), ('peek', 'XPeek'), ('next', 'XNext'), ('push(STRING,"p")', 'XPush 1 (Some [112])'),
+          ('push(NEWLINE)', 'XPush 2 None'), ('push(BRACE_OPEN,"zz")', 'XPush 6 (Some [122;122])'), ('push(STRING)', 'XPush 1 None'),
+          ('expect(STRING)', 'XExpect 1 true'), ('expect(NEWLINE)', 'XExpect 2 true'), ('expect(BRACE_OPEN,skip_newline=False)', 'XExpect 6 false'),
+          ('next(skipping_newlines())', 'XSkipNl'), ('next(block(consume_brace=False))', 'XBlock')]
+BT_ITER = [(1, 'a'), (2, '\n'), (2, '\n'), (6, '{'), (1, 'b'), (7, '}'), (11, 'f')]
+BT_TEXT = 'a\r\n\n{ "b\nc" } [f] ='
+BT_TEXT_ERR = 'a\n{ "b'
+BT_BITS = 7            # string_bracket + string_parens + allow_escapes
+BT_CHUNKS = ['a\r', '', '\n\n{ "b', '\nc" }', ' [', 'f] =']
+BT_SOURCES = ['iter', 'flat', 'chunked', 'flat_err', 'chars_err']
+
+
+def bt_make(kind: str):
+    from srctools.tokenizer import IterTokenizer, Token, Tokenizer
+    if kind == 'iter':
+        return IterTokenizer([(Token(v), s) for v, s in BT_ITER])
+    if kind == 'flat':
+        return Tokenizer(BT_TEXT, None, **U.opts_of_bits(BT_BITS))
+    if kind == 'chunked':
+        return Tokenizer(iter(BT_CHUNKS), None, **U.opts_of_bits(BT_BITS))
+    if kind == 'flat_err':
+        return Tokenizer(BT_TEXT_ERR, None, **U.opts_of_bits(BT_BITS))
+    return Tokenizer(iter(list(BT_TEXT_ERR)), None, **U.opts_of_bits(BT_BITS))
+
+
+def bt_coq_run(kind: str) -> str:
+    if kind == 'iter':
+        return 'xrun_iter ' + coq_list(f'({v}, {coq_str(s)})' for v, s in BT_ITER)
+    if kind == 'flat':
+        return f'xrun_flat {BT_BITS} {coq_str(BT_TEXT)}'
+    if kind == 'chunked':
+        return f'xrun_chk {BT_BITS} {coq_list(coq_str(c) for c in BT_CHUNKS)}'
+    if kind == 'flat_err':
+        return f'xrun_flat {BT_BITS} {coq_str(BT_TEXT_ERR)}'
+    return f'xrun_chk {BT_BITS} {coq_list(coq_str(c) for c in BT_TEXT_ERR)}'
+
+
+_UNEXPECTED = {'Unexpected property flags': 11, 'Unexpected parentheses block': 3, 'Unexpected string': 1, 'Unexpected directive': 4,
+               'Unexpected comment': 5, 'File ended unexpectedly!': 0, 'Unexpected newline!': 2}
+
+
+def _got_token(mess: str) -> int:
+    """The token an error raised by a helper names."""
+    from srctools.tokenizer import _OPERATOR_VALS, Token
+    if mess.startswith('Expected '):
+        return Token[mess.rsplit('Token.', 1)[1].rstrip('!')].value
+    if mess.startswith('Unclosed '):
+        return 0
+    for pre, v in _UNEXPECTED.items():
+        if mess.startswith(pre):
+            return v
+    if mess.startswith('Unexpected "'):
+        ch = mess[len('Unexpected "'):].split('" character!')[0]
+        for t, s in _OPERATOR_VALS.items():
+            if s == ch:
+                return t.value
+    return 99
+
+
+def bt_run(kind: str, ops: tuple[int, ...]) -> list[int]:
+    """Run a sequence of public BaseTokenizer operations on the real class; encode as BaseTokEnum.xrun does."""
+    from srctools.tokenizer import Token, TokenSyntaxError
+    tk = bt_make(kind)
+    out: list[int] = []
+
+    def ptok(tv) -> list[int]:
+        return [tv[0].value, len(tv[1]), *map(ord, tv[1])]
+    for o in ops:
+        go = True
+        try:
+            if o == 0:
+                out += [1, *ptok(tk())]
+            elif o == 1:
+                out += [1, *ptok(tk.peek())]
+            elif o == 2:
+                try:
+                    out += [1, *ptok(next(tk))]
+                except StopIteration:
+                    out += [5]
+            elif o in (3, 4, 5, 6):
+                t, v = [(Token.STRING, 'p'), (Token.NEWLINE, None), (Token.BRACE_OPEN, 'zz'), (Token.STRING, None)][o - 3]
+                try:
+                    tk.push_back(t, v)
+                    out += [3]
+                except ValueError:
+                    out += [4]
+            elif o in (7, 8, 9):
+                t, skip = [(Token.STRING, True), (Token.NEWLINE, True), (Token.BRACE_OPEN, False)][o - 7]
+                v = tk.expect(t, skip)
+                out += [6, len(v), *map(ord, v)]
+            elif o == 10:
+                try:
+                    out += [1, *ptok(next(tk.skipping_newlines()))]
+                except StopIteration:
+                    out += [5]
+            else:
+                try:
+                    v = next(tk.block('x', consume_brace=False))
+                    out += [6, len(v), *map(ord, v)]
+                except StopIteration:
+                    out += [5]
+        except TokenSyntaxError as e:
+            i, args = U.err_code(e.mess)
+            ln = e.line_num if isinstance(e.line_num, int) else 0
+            if i != 99:                      # raised by the underlying tokenizer: the run ends
+                out += [2, 2, i, ln, len(args), *args]
+                go = False
+            else:                            # raised by the helper itself through self.error
+                out += [7, _got_token(e.mess), ln]
+            if type(e) is not TokenSyntaxError or ln != tk.line_num:
+                out += [8]
+        except BaseException as e:  # noqa: BLE001
+            out += [4, 0, *map(ord, type(e).__name__)]
+            go = False
+        out += [len(tk._pushback)]
+        for tv in tk._pushback:
+            out += ptok(tv)
+        out += [tk.line_num]
+        if not go:
+            break
+    return out
+
+
+def _bt_shard(job) -> tuple[int, int, dict]:
+    kind, first, n = job
+    tot = 0
+    cnt = 0
+    hist: dict[str, int] = {}
+    seqs = [()] if first is None else [(first,) + w for k in range(n) for w in itertools.product(range(len(BT_OPS)), repeat=k)]
+    for ops in seqs:
+        enc = bt_run(kind, ops)
+        tot = (tot + U.hash_list(enc)) & U.M63
+        cnt += 1
+        k = 'helper-error' if 7 in enc[:1] else 'ok'
+        hist[k] = hist.get(k, 0) + 1
+    return tot, cnt, hist
+
+
+def corr_basetok(ck: Ck, escalate: bool) -> None:
+    """BaseTokenizer model (Text/BaseTok.v, configured from the source) vs the real class: EVERY sequence of up to n public
+    operations on five sources; observables after every operation: result (token, value / error + token named + line),
+    the complete _pushback list in list order, line_num."""
+    side = ck.extra.get('translated', {}).get('BaseTokSites_gen', {})
+    changed = any(side.get('digests', {}).get(k) != v for k, v in c03_basetok.MODEL_DIGESTS.items())
+    n = 5 if (ck.thorough or escalate or changed) else 4
+    alpha = '[' + '; '.join(c for _, c in BT_OPS) + ']'
+    cjobs = [[f'xshard_hash ({bt_coq_run(kind)}) {alpha} {n}'] for kind in BT_SOURCES]
+    pjobs = [(kind, None, 0) for kind in BT_SOURCES] + [(kind, f, n) for kind in BT_SOURCES for f in range(len(BT_OPS))]
+    with ThreadPoolExecutor(1) as ex:
+        fut = ex.submit(U.coq_eval_many, ck, cjobs, 'c03bt', imports=BT_IMPORTS, timeout=600, workers=len(BT_SOURCES))
+        parts = U.pool_map(_bt_shard, pjobs, workers=14)
+        res = fut.result()
+    bad = []
+    total = 0
+    for kind, r in zip(BT_SOURCES, res):
+        tot = sum(t for (k2, _f, _n), (t, _c, _h) in zip(pjobs, parts) if k2 == kind) & U.M63
+        cnt = sum(c for (k2, _f, _n), (_t, c, _h) in zip(pjobs, parts) if k2 == kind)
+        total += cnt
+        ck.hist('basetok_sequences', kind, cnt)
+        if r is None or U.parse_int63(r[0]) != tot:
+            bad.append(kind)
+    ck.count('corr_basetok_sequences', total)
+    detail = ''
+    if bad:
+        detail = _bt_locate(ck, bad[0])
+        ck.tie_broken.append('correspondence BaseTokenizer vs Text/BaseTok.v')
+    ck.obligation('correspondence:basetokenizer_ops', not bad,
+                  f'real BaseTokenizer (IterTokenizer and Tokenizer, flat / chunked / ending in an error) vs model: every sequence of up to {n} of '
+                  f'{len(BT_OPS)} public operations (call, peek, next, 4 push_back forms, 3 expect forms, skipping_newlines and block steps) on '
+                  f'{len(BT_SOURCES)} sources ({total} sequences; result, _pushback list, line_num after every operation): '
+                  + ('agree' if not bad else f'{bad} disagree; {detail}'))
+    ck.sample({'basetok_case': {'source': 'flat', 'ops': ['peek', 'call', 'push(NEWLINE)', 'expect(STRING)'],
+                                'encoded': bt_run('flat', (1, 0, 4, 7))}})
+
+
+def _bt_locate(ck: Ck, kind: str) -> str:
+    from harness.common import parse_coq_N_list
+    for k in range(0, 4):
+        seqs = list(itertools.product(range(len(BT_OPS)), repeat=k))
+        exprs = [f'{bt_coq_run(kind)} [' + '; '.join(BT_OPS[o][1] for o in ops) + ']' for ops in seqs]
+        for lo in range(0, len(exprs), 400):
+            vals = ck.coq_eval(BT_IMPORTS, exprs[lo:lo + 400], name='btlocate', preamble=U.PRE)
+            if vals is None:
+                return 'could not evaluate the model literally'
+            for ops, v in zip(seqs[lo:lo + 400], vals):
+                m = parse_coq_N_list(v)
+                imp = bt_run(kind, ops)
+                if m != imp:
+                    d = {'source': kind, 'ops': [BT_OPS[o][0] for o in ops], 'impl': imp, 'model': m}
+                    ck.extra['basetok_disagreement'] = d
+                    return f'first: source={kind} ops={d["ops"]} impl={imp} model={m}'
+    return 'disagreement only at length >= 4'
 
 # ------------------------------------------------------------------------------------------------ oracle on the implementation
 def chunk_oracle(s: str, bits: int, cs: list[str]) -> str | None:
@@ -458,6 +996,84 @@ def report_tok(ck: Ck, kind: str, s: str, bits: int, cs: list[str] | None) -> No
                  {'kind': kind, 'text': [ord(c) for c in s], 'bits': bits, 'chunks': [[ord(c) for c in x] for x in (witness or cs or [])]})
 
 
+
+def _plain_stream(s: str, bits: int) -> list:
+    """Tokens of a fresh tokenizer by plain calls, up to EOF; a final ('ERR', message, line) if it raises."""
+    from srctools.tokenizer import Token, Tokenizer, TokenSyntaxError
+    tk = Tokenizer(s, None, **U.opts_of_bits(bits))
+    out: list = []
+    try:
+        for _ in range(len(s) + 2):
+            t = tk()
+            out.append(t)
+            if t[0] is Token.EOF:
+                break
+    except TokenSyntaxError as e:
+        out.append(('ERR', e.mess, e.line_num))
+    except Exception as e:  # noqa: BLE001
+        out.append(('FOREIGN', type(e).__name__, 0))
+    return out
+
+
+def basetok_delivery(s: str, bits: int, plan: list[str], chunks: list[str] | None = None) -> str | None:
+    """Delivery = underlying stream on the real class: following `plan` (call / peek+call / peek twice / push two and pop
+    them), the tokens returned by calls must be the plain stream; returns a description of the first deviation."""
+    from srctools.tokenizer import Token, Tokenizer, TokenSyntaxError
+    want = _plain_stream(s, bits)
+    tk = Tokenizer(s if chunks is None else iter(chunks), None, **U.opts_of_bits(bits))
+    got: list = []
+    try:
+        for step in plan:
+            if got and got[-1][0] is Token.EOF:
+                break
+            if step == 'call':
+                got.append(tk())
+            elif step == 'peek':
+                p = tk.peek()
+                c = tk()
+                if p != c:
+                    return f'peek-then-call: peek gave {p!r}, the next call {c!r}'
+                got.append(c)
+            elif step == 'peek2':
+                p1, p2 = tk.peek(), tk.peek()
+                if p1 != p2:
+                    return f'peek-twice: {p1!r} then {p2!r}'
+            else:
+                tk.push_back(Token.STRING, 'first')
+                tk.push_back(Token.BRACE_OPEN)
+                a, b = tk(), tk()
+                if (a, b) != ((Token.BRACE_OPEN, '{'), (Token.STRING, 'first')):
+                    return f'push-back-order: pushed STRING "first" then BRACE_OPEN, calls gave {a!r} then {b!r}'
+    except TokenSyntaxError as e:
+        got.append(('ERR', e.mess, e.line_num))
+    except Exception as e:  # noqa: BLE001
+        got.append(('FOREIGN', type(e).__name__, 0))
+    if got != want[:len(got)]:
+        k = next(i for i, (a, b) in enumerate(zip(got + [None], want + [None])) if a != b)
+        return f'delivery: item {k} is {got[k] if k < len(got) else None!r}, the plain stream has {want[k] if k < len(want) else None!r}'
+    return None
+
+
+def basetok_search(ck: Ck, big: bool) -> None:
+    rng = ck.rng
+    for _ in range(4000 if big else 600):
+        s = (gen_kv_text(rng) if rng.random() < 0.5 else gen_text(rng))[:rng.choice([4, 8, 16, 40])]
+        bits = rng.choice([6, 7, 7, rng.choice(ALL_BITS)])
+        plan = [rng.choice(['call', 'call', 'peek', 'peek', 'peek2', 'pushpop']) for _ in range(len(s) + 3)]
+        chunks = random_chunks(rng, s) if rng.random() < 0.5 else None
+        ck.count('oracle_basetok_delivery')
+        r = basetok_delivery(s, bits, plan, chunks)
+        if r is not None and not capped('basetok:' + r.split(':')[0]):
+            kind = r.split(':')[0]
+            small = shrink(s, lambda t: (basetok_delivery(t, bits, plan, None) or '').split(':')[0] == kind)
+            r2 = basetok_delivery(small, bits, plan, None) or r
+            ck.violation('basetok-' + kind + ':' + '+'.join(cname(c) for c in small[:8]),
+                         f'BaseTokenizer layer over Tokenizer({small!r}, options {[n for i, n in enumerate(U.OPTION_NAMES) if bits >> i & 1]}), '
+                         f'plan {plan[:len(small) + 3]}: {r2}',
+                         {'kind': 'basetok', 'text': [ord(c) for c in small], 'bits': bits, 'plan': plan[:len(small) + 3]})
+        ck.seen(('bt', bits, s, tuple(plan[:6])))
+
+
 def search(ck: Ck, escalate: bool) -> None:
     big = ck.thorough or escalate or bool(ck.tie_broken)
     # (a) exhaustive: all strings up to length n x all 128 option vectors x cut sets (+ empty chunks, + line split).
@@ -465,8 +1081,8 @@ def search(ck: Ck, escalate: bool) -> None:
     res = ck.extra.pop('_oracle_from_corr', None)
     scope = ck.extra.pop('_oracle_scope', None)
     if res is None or (big and scope != (3, 3)):
-        groups = [ALL_BITS[i:i + 8] for i in range(0, 128, 8)]
-        scope = (3, 3 if big else 2)
+        groups = [ALL_BITS[i:i + 8] for i in range(0, 128, 8)] if big else [QUICK_BITS[i:i + 2] for i in range(0, 32, 2)]
+        scope = (3, 3) if big else (3, 2, 'quick')
         res = [(t[3], t[4]) for t in U.pool_map(_impl_shard, [(g, scope[0], scope[1]) for g in groups], workers=14)]
     for cnt, bad in res:
         ck.count('oracle_exhaustive_chunked_runs', cnt)
@@ -476,8 +1092,9 @@ def search(ck: Ck, escalate: bool) -> None:
         if s:
             for g in range(0, 128, 8):      # (text, option group) - an undercount of the distinct (text, options) cases
                 ck.seen(('ox', s, g))
-    ck.hist('oracle', f'all strings <= {scope[0]} over {len(SYN_ALPHA)} symbols x 128 option vectors; every cut set up to length {scope[1]}, '
-                      f'beyond: finest cut with empty chunks + one other cut set + line split', sum(c for c, _ in res))
+    ck.hist('oracle', f'all strings <= {scope[0]} over {len(SYN_ALPHA)} symbols x ' + ('128 option vectors' if len(scope) == 2 else
+            '32 option vectors (<= 2: all 128)') + f'; every cut set up to length {scope[1]}, beyond (16 representative option vectors: '
+            f'each option alone on / alone off): finest cut with empty chunks + one other cut set + line split', sum(c for c, _ in res))
     # (b) random longer texts: random chunkings, per-character, lines; read bound; EOF for ever
     rng = ck.rng
     m = 20000 if big else 2500
@@ -528,10 +1145,19 @@ def search(ck: Ck, escalate: bool) -> None:
                              f'Keyvalues.parse({small!r}, {kw}) differs between one string and per-character chunks',
                              {'kind': 'kvparse-chunks', 'text': [ord(c) for c in small], 'kw': kw})
                 break
+    basetok_search(ck, big)
     ck.sample({'oracle_example': {'text': 'a\r\n/*x*/b', 'chunks': ['a\r', '', '\n/*x*', '/b'], 'check': 'same trace as the single string'}})
 
 
 # ------------------------------------------------------------------------------------------------ main
+def _stage(ck: Ck, name: str) -> None:
+    """Wall time per stage (evidence only)."""
+    import time
+    now = time.time()
+    ck.extra.setdefault('stage_seconds', {})[name] = round(now - ck.extra.get('_t_last', ck.t0), 1)
+    ck.extra['_t_last'] = now
+
+
 def run(ck: Ck) -> None:
     _REPORTED.clear()
     ck.rule = ('exhaustive: every string over the 23-symbol syntax alphabet (" \\ / * { } [ ] ( ) # : + = , CR LF space a n BOM \' ;) up to '
@@ -550,7 +1176,9 @@ def run(ck: Ck) -> None:
     escalate = bool(side) and any(side.get('digests', {}).get(k) != v for k, v in c02_tables.MODEL_DIGESTS.items())
     if escalate:
         ck.notes.append('hand-modelled tokenizer functions changed since the model was written: budgets escalated')
-    built = ok_t and ck.build(['Props/C03.vo', 'Text/TokEnum.vo'])
+    ok_k = ck.translate('KvParseSites_gen', c03_kvparse.translate)
+    ok_b = ck.translate('BaseTokSites_gen', c03_basetok.translate)
+    built = ok_t and ok_k and ok_b and ck.build(['Props/C03.vo', 'Text/TokEnum.vo', 'Text/KvErrGen.vo', 'Text/BaseTokEnum.vo'])
     if built:
         ck.theorems('Props/C03.v')
         ck.instance_obligations(U.IMPORTS + ['SV.Text.TokenizerProofs'], {
@@ -558,9 +1186,38 @@ def run(ck: Ck) -> None:
             'token_enum_values_distinct': 'token_values_distinct',
             'operators_name_known_tokens': 'operators_all_known',
         })
+        ck.instance_obligations(KV_IMPORTS, {
+            'keyvalues_parse_every_modelled_site_guarded': 'kv_sites_all_guarded',
+            'read_flag_leading_bang_test_cannot_raise': 'bang_total gen_kcfg',
+            'flag_replace_test_block_only_indexes_nonempty_list': 'guard_replace_block gen_kcfg',
+            'flag_replace_test_leaf_only_indexes_nonempty_list': 'guard_replace_leaf gen_kcfg',
+            'single_block_return_only_indexes_nonempty_root': 'guard_single_root gen_kcfg',
+            'too_many_closing_braces_caught_as_KeyValError': 'close_guarded gen_kcfg',
+            'no_unguarded_indexing_conversion_or_unknown_call_on_the_parse_path': 'kv_no_unmodelled_site',
+            'parse_path_census_wellformed': 'kv_census_rows_wellformed',
+            'error_messages_format_with_the_arguments_passed': 'error_formats_ok',
+            'tokenizer_every_indexing_site_guarded': 'tokenizer_sites_all_guarded',
+            'tokenizer_every_raise_goes_through_self_error': 'tokenizer_raises_only_through_error',
+            'keyvalues_parse_raises_only_KeyValError': 'kvparse_raises_only_keyvalerror',
+        }, name='kvinst')
+        ck.instance_obligations(BT_IMPORTS, {
+            'pushback_list_is_a_stack_LIFO': 'pushback_is_lifo',
+            'error_of_a_token_covers_every_member': 'error_covers_every_token',
+            'push_back_of_an_operator_redelivers_what_the_tokenizer_delivers': 'operator_vals_match_tokenizer',
+            'push_back_keeps_the_value_of_value_tokens': 'value_tokens_keep_their_value',
+        }, name='btinst')
+        _stage(ck, 'translate+build+theorems+instances')
         corr_exhaustive(ck, escalate)
+        _stage(ck, 'corr_exhaustive')
         corr_random(ck, escalate)
+        _stage(ck, 'corr_random')
+        corr_kvparse(ck, escalate)
+        _stage(ck, 'corr_kvparse')
+        corr_basetok(ck, escalate)
+        _stage(ck, 'corr_basetok')
     search(ck, escalate)
+    _stage(ck, 'search')
+    ck.extra.pop('_t_last', None)
     if ck.violations:
         ck.explain('instance:')
         ck.explain('correspondence:')
@@ -570,13 +1227,31 @@ def run(ck: Ck) -> None:
 
 def replay(data: dict) -> int:
     r = data.get('replay', data)
+    if r.get('kind') == 'kvparse-tokens':
+        ixs, bits, fs = r['tokens'], r['bits'], r.get('flagset', 0)
+        c, what = kv_code(kv_tokens_arg(ixs), bits, True, KV_FLAGSETS[fs])
+        print(f'Keyvalues.parse(IterTokenizer({[(KV_TOK_NAMES[i], KV_TOK_ALPHA[i][1]) for i in ixs]}), flags={KV_FLAGSETS[fs]}, **{kv_kw(bits)})\n -> {kv_name(c)}: {what}')
+        alpha = coq_list(f'({KV_TOK_ALPHA[i][0]}, {coq_str(KV_TOK_ALPHA[i][1])})' for i in ixs)
+        mv = U.model_eval([f'kv_tokens_code {bits} {coq_flags(KV_FLAGSETS[fs])} {alpha}'], imports=KV_IMPORTS)
+        if mv is not None:
+            print(f' model (parser model as configured by the last ./check run): {kv_name(int(mv[0].split("%")[0]))}')
+        print('VIOLATED' if c >= 300 else 'property holds on this input')
+        return 1 if c >= 300 else 0
+    if r.get('kind') == 'basetok':
+        s = ''.join(map(chr, r['text']))
+        res = basetok_delivery(s, r['bits'], r['plan'])
+        print(f'text {s!r} options {U.opts_of_bits(r["bits"])}\n plan {r["plan"]}\n plain stream: {_plain_stream(s, r["bits"])}\n -> {res}')
+        print('VIOLATED' if res else 'property holds on this input')
+        return 1 if res else 0
     if 'text' not in r:
         print(json.dumps(r, indent=1)[:3000])
         print('no concrete input recorded (broken proof obligation / correspondence)')
         return 1
     s = ''.join(map(chr, r['text']))
     if r.get('kind', '').startswith('kvparse'):
-        kw = r.get('kw', {})
+        kw = dict(r.get('kw', {}))
+        if r.get('flags'):
+            kw['flags'] = r['flags']
         a = kv_oracle(s, None, **kw)
         b = kv_oracle(s, [c for c in s], **kw)
         print(f'Keyvalues.parse({s!r}, {kw})\n one string : {a}\n per char   : {b}')
